@@ -122,7 +122,15 @@ func (r *Result) Fail(sig map[string]any, what string, input any) {
 
 type RNG struct{ s uint64 }
 
-func NewRNG(seed uint64) *RNG { return &RNG{s: seed*0x9E3779B97F4A7C15 + 0x1234567} }
+// NewRNG mixes the seed so that neighbouring seeds give unrelated streams
+// (the state must not be an affine function of the seed: Next adds a constant).
+func NewRNG(seed uint64) *RNG {
+	z := seed + 0x9E3779B97F4A7C15
+	z = (z ^ (z >> 30)) * 0xBF58476D1CE4E5B9
+	z = (z ^ (z >> 27)) * 0x94D049BB133111EB
+	z ^= z >> 31
+	return &RNG{s: z ^ 0xD1B54A32D192ED03}
+}
 func (r *RNG) Next() uint64 {
 	r.s += 0x9E3779B97F4A7C15
 	z := r.s
